@@ -33,6 +33,9 @@ BottomHole ==
      IN v' = VAll(<< v,
           Clause("C05_bht", RDef(want) /\ RDef(T.trock), RClose(T.trock, want, sc, Tol),
                  [observed |-> RDec(T.trock, 12), expected |-> RDec(want, 12), segments |-> T.n]),
+          Clause("C05_declared_default", "dflt" \in DOMAIN T /\ Len(T.dflt) > 0,
+                 \A j \in 1..Len(T.dflt) : REq(T.dflt[j].got, T.dflt[j].want),
+                 [slots |-> IF "dflt" \in DOMAIN T THEN [j \in 1..Len(T.dflt) |-> T.dflt[j]] ELSE << >>]),
           Clause("C05_depth_cap", RDef(zd) /\ RDef(T.depth), RClose(T.depth, zd, RAbs(zd), Tol),
                  [observed |-> RDec(T.depth, 12), expected |-> RDec(zd, 12)]),
           Clause("C05_tmax", RDef(T.trock), RLeq(T.trock, RAdd(T.tmax, RMul(Tol, RAbs(T.tmax)))),
